@@ -85,6 +85,17 @@ fn c06_configs(tier: Tier) -> Vec<TcpCfg> {
         c.reader_buf = 2;
         c.reader = Pace::Stepped;
     });
+    // the receive buffer fills completely (window 0) and is then drained in reads smaller
+    // than half the cap: the first such read has to reopen the window
+    add("rcv4-full-then-1byte-reads-t5-D0", &|c| {
+        c.mtu = 44;
+        c.send_cap = 5;
+        c.recv_cap = 4;
+        c.c_chunks = vec![5];
+        c.reader_buf = 1;
+        c.reader = Pace::Stepped;
+        c.drops = 0;
+    });
     add("mss1-snd2-t2-D2", &|c| {
         c.c_chunks = vec![2];
         c.retx_max = 5;
@@ -97,6 +108,18 @@ fn c06_configs(tier: Tier) -> Vec<TcpCfg> {
         c.drops = 2;
         c.c_chunks = vec![2];
         c.liveness = false;
+    });
+    // abort while the peer's data and FIN sit unread: the error must still surface
+    add("exhaust-bidir-unread-T2-max1-D2", &|c| {
+        c.retx_threshold = 2;
+        c.retx_max = 1;
+        c.drops = 2;
+        c.c_chunks = vec![1];
+        c.s_bytes = 1;
+        c.mode = Mode::Concurrent;
+        c.reader = Pace::Late;
+        c.liveness = false;
+        c.w = 1;
     });
     add("loopback-t4", &|c| {
         c.topo = Topo::Loopback;
